@@ -61,6 +61,8 @@ type callOutcome struct {
 	ticks    int64
 	maxDepth int
 
+	nestedProblem string // a nested entry point (RunProgram/Callable/... called from a host native) did not restore the VM
+
 	fired         bool
 	firedTick     int64
 	firedLog      int
@@ -108,7 +110,22 @@ func (e *faultsim) registerNatives(h *Host, bodies []genBody) {
 		}
 		panic(rt.NewGoError(err))
 	}
-	nest := func() func() { h.nestDepth++; return func() { h.nestDepth-- } }
+	// every nested entry point must hand the VM back exactly as it got it (stack lengths, registers), whatever the
+	// nested call's outcome was: normal, exception, stack overflow or interrupt
+	nest := func() func() {
+		h.nestDepth++
+		before := rt.VerifState()
+		return func() {
+			h.nestDepth--
+			after := rt.VerifState()
+			if before.CallStack != after.CallStack || before.TryStack != after.TryStack || before.IterStack != after.IterStack ||
+				before.RefStack != after.RefStack || before.Sp != after.Sp || before.Sb != after.Sb || before.StashGlobal != after.StashGlobal || before.PrivEnvNil != after.PrivEnvNil {
+				if h.nestedProblem == "" {
+					h.nestedProblem = fmt.Sprintf("before: %s; after: %s", stateKey(before), stateKey(after))
+				}
+			}
+		}
+	}
 	rt.Set("NR", func(k, mode int) (goja.Value, error) {
 		defer nest()()
 		p, _ := h.compile("nested", bodies[k].Name+"()")
@@ -289,6 +306,7 @@ func (e *faultsim) doCall(h *Host, c histCall, bodies []genBody, iterSite int) (
 	out.errObj = err
 	out.state = rt.VerifState()
 	out.probes, out.ticks, out.maxDepth = h.probes, h.ticks, h.maxDepth
+	out.nestedProblem, h.nestedProblem = h.nestedProblem, ""
 	if h.fired {
 		out.fired, out.firedTick, out.firedLog = true, h.firedTick, h.firedLog-start
 		out.firedDesc = inflight(h.firedState, h.firedNest)
@@ -684,6 +702,10 @@ func (e *faultsim) Run(t *core.Tape, want bool) *core.Result {
 			break
 		}
 
+		if o.nestedProblem != "" {
+			fail("nested-return-invariant", "a nested call into the runtime (from a host native) did not hand the VM back as it got it: "+o.nestedProblem)
+			break
+		}
 		// idle-state invariant after every outermost return
 		if p := idleProblems(o.state, callDrains(c.Kind)); len(p) > 0 {
 			fail("idle-invariant", "runtime not idle-clean after the call returned: "+strings.Join(p, ", "))
